@@ -55,6 +55,8 @@ func main() {
 		os.Exit(cmdBuilders(os.Args[2:]))
 	case "schemas":
 		os.Exit(cmdSchemas(os.Args[2:]))
+	case "consts":
+		os.Exit(cmdConsts(os.Args[2:]))
 	case "selftest":
 		os.Exit(cmdSelftest(os.Args[2:]))
 	default:
